@@ -21,14 +21,43 @@ type S struct {
 	Unique    [][]string `json:"unique,omitempty"` // unique statements, each a set of descendant paths "a" or "c/a"
 	UniqVals  bool   `json:"uniqvals,omitempty"` // leaf takes values from {a,b}
 	Config    string `json:"config,omitempty"`   // "", "true", "false" (used by other harnesses; no influence on validation)
+	// leaf: the type is the typedef td, which has the default "tdflt"; it is the leaf's default
+	// unless the leaf has one of its own or is mandatory (RFC 6020 7.6.1)
+	TypedefDefault bool `json:"typedef_default,omitempty"`
 	Kids      []*S   `json:"kids,omitempty"`
+}
+
+// effDefault: the default value of a leaf ("" none).
+func (s *S) effDefault() string {
+	switch {
+	case s.Kind != "leaf":
+		return ""
+	case s.Default != "":
+		return s.Default
+	case s.TypedefDefault && !s.Mandatory:
+		return "tdflt"
+	}
+	return ""
+}
+
+func usesTypedef(kids []*S) bool {
+	for _, k := range kids {
+		if k.TypedefDefault || usesTypedef(k.Kids) {
+			return true
+		}
+	}
+	return false
 }
 
 func (s *S) yang() string {
 	var b strings.Builder
 	switch s.Kind {
 	case "leaf":
-		fmt.Fprintf(&b, "leaf %s { type string;", s.Name)
+		if s.TypedefDefault {
+			fmt.Fprintf(&b, "leaf %s { type td;", s.Name)
+		} else {
+			fmt.Fprintf(&b, "leaf %s { type string;", s.Name)
+		}
 		if s.Config != "" {
 			fmt.Fprintf(&b, " config %s;", s.Config)
 		}
@@ -159,8 +188,8 @@ func variants(s *S, budget int) []*D {
 		if s.UniqVals {
 			vals = []string{"a", "b"}
 		}
-		if s.Default != "" {
-			vals = []string{"v", s.Default}
+		if s.effDefault() != "" {
+			vals = []string{"v", s.effDefault()}
 		}
 		for _, v := range vals {
 			out = append(out, &D{Name: s.Name, Values: []string{v}})
@@ -352,7 +381,7 @@ func hasDefaults(kids []*S) bool {
 	for _, k := range kids {
 		switch k.Kind {
 		case "leaf":
-			if k.Default != "" {
+			if k.effDefault() != "" {
 				return true
 			}
 		case "container":
@@ -391,8 +420,8 @@ func decorate(kids []*S, d *D) []*D {
 		for _, k := range kids {
 			switch k.Kind {
 			case "leaf":
-				if !present(k.Name) && k.Default != "" {
-					out = append(out, &D{Name: k.Name, Values: []string{k.Default}})
+				if !present(k.Name) && k.effDefault() != "" {
+					out = append(out, &D{Name: k.Name, Values: []string{k.effDefault()}})
 				}
 			case "container":
 				if !present(k.Name) && !k.Presence && hasDefaults(k.Kids) {
